@@ -52,6 +52,13 @@ func vEqStrs(a, b []string) bool {
 	return true
 }
 
+func vUpperFirst(s string) string {
+	if len(s) > 0 && s[0] >= 'a' && s[0] <= 'z' {
+		return string([]byte{s[0] - 32}) + s[1:]
+	}
+	return s
+}
+
 func vSwapFirstCase(s string) string {
 	if len(s) == 0 {
 		return s
@@ -83,7 +90,10 @@ func VerifC19Faithful() {
 		v = v + open + "," + close
 	}
 	name := nd.StringUpTo(L)
-	nd.Assume(len(name) > 0 && vNoSep(name, "= ") && name[0] < 0x80)
+	nd.Assume(len(name) > 0 && vNoSep(name, "= "))
+	if name[0] >= 0x80 {
+		nd.Cover("argument name starting with a non-ASCII byte")
+	}
 	a1, a2 := nd.StringUpTo(L), nd.StringUpTo(L)
 	nd.Assume(vNoSep(a1, " ") && vNoSep(a2, " "))
 	items := []string{a1, a2}
@@ -116,6 +126,9 @@ func VerifC19Faithful() {
 	vals2, ok2 := args.Find(ArgType(vSwapFirstCase(name)))
 	nd.Assert(ok2 && vEqStrs(vals2, items), "C19: an argument name is matched regardless of the case of its first letter")
 	nd.Assert(args.Has(ArgType(name2)), "C19: an argument without '=' is present")
+	// the argument is filed under the name that was written (only the case of an ASCII first letter is normalised)
+	_, filed := args[ArgType(vUpperFirst(name))]
+	nd.Assert(filed, "C19: each segment yields an argument under the name written in the tag")
 	if third {
 		nd.Cover("several valued arguments")
 		vals3, ok3 := args.Find(ArgType("zq"))
